@@ -149,7 +149,11 @@ enum RespSpec { Err(u8), Msg { rcode: u8, aa: bool, tc: bool, ad: bool, noq: boo
 /// 2: set_udp_payload_size only, do_ is false).  What counts is the RequestMessage's own OPT: an OPT
 /// record of the base message is dropped by both serialisations.
 struct QSpec { name: usize, class: u16, rtype: u16, rd: bool, cd: bool, ad: bool, do_: bool, opcode: u8, base_opt: u8, own: u8 }
-impl QSpec { fn own_present(&self) -> bool { self.do_ || self.own > 0 } }
+impl QSpec {
+    fn own_present(&self) -> bool { self.do_ || self.own > 0 }
+    /// DO bit of the RequestMessage's own OPT record
+    fn own_do(&self) -> bool { self.do_ && self.own != 2 }
+}
 
 #[derive(Clone, Debug)]
 /// `hold_ms`: the clock advance between send_request() and get_response().await of this request
@@ -354,7 +358,7 @@ fn build_query(q: &QSpec, id: u16) -> RequestMessage<Vec<u8>> {
     req
 }
 
-fn qflags(q: &QSpec) -> u32 { q.rd as u32 | (q.cd as u32) << 1 | (q.ad as u32) << 2 | (q.do_ as u32) << 3 | (q.base_opt as u32) << 4 | (q.own_present() as u32) << 6 }
+fn qflags(q: &QSpec) -> u32 { q.rd as u32 | (q.cd as u32) << 1 | (q.ad as u32) << 2 | (q.own_do() as u32) << 3 | (q.base_opt as u32) << 4 | (q.own_present() as u32) << 6 }
 
 fn make_conn(cfg: &Cfg, mock: &Mock) -> cache::Connection<Mock> {
     let mut c = cache::Config::new();
